@@ -356,6 +356,9 @@ def run(ctx, rep) -> None:
     from .c17 import _dispatch_tables
 
     rep.attempt("distributor_dispatch", _dispatch_tables, ctx, _Proxy(rep, "C17.4", "C06.3"), only=("_instantiate_distributor",))
+    from .c14 import state_mesh_layout
+
+    rep.attempt("state_mesh_layout", state_mesh_layout, ctx, rep, "C06.3")
     from .c04 import stateful_cursors_advance
 
     rep.attempt("stateful_cursors_advance", stateful_cursors_advance, ctx, rep, "C06.3")
